@@ -46,7 +46,7 @@ UNPROVED = ["ownership (a result's validity is its own) is a requirement stated 
 BUDGET = {"quick": 110, "thorough": 1200}
 
 PAD_MODES = ["constant", "edge", "wrap", "symmetric", "reflect"]
-UFUNC1 = ["sin", "negative", "square", "absolute", "sign", "modf0", "modf1"]
+UFUNC1 = ["sin", "negative", "square", "absolute", "sign", "exp", "isfinite"]
 
 
 # ============================================================================ types of values
@@ -245,10 +245,6 @@ class _Laplace(Base):
 
 
 def _ufunc1(f, name):
-    if name == "modf0":
-        return np.modf(f)[0]
-    if name == "modf1":
-        return np.modf(f)[1]
     return getattr(np, name)(f)
 
 
@@ -363,6 +359,9 @@ BINF = {
     "np_add": (lambda f, g: np.add(f, g), lambda tys: arith_ok(tys) and real_(tys[0]) and real_(tys[1]), ufunc2_type),
     "np_multiply": (lambda f, g: np.multiply(f, g), lambda tys: arith_ok(tys) and real_(tys[0]) and real_(tys[1]), ufunc2_type),
     "np_maximum": (lambda f, g: np.maximum(f, g), lambda tys: arith_ok(tys) and real_(tys[0]) and real_(tys[1]), ufunc2_type),
+    # two outputs, two field inputs: a tuple of fields
+    "np_divmod0": (lambda f, g: np.divmod(f, g)[0], lambda tys: arith_ok(tys) and real_(tys[0]) and real_(tys[1]), ufunc2_type),
+    "np_divmod1": (lambda f, g: np.divmod(f, g)[1], lambda tys: arith_ok(tys) and real_(tys[0]) and real_(tys[1]), ufunc2_type),
     "dot": (lambda f, g: f.dot(g), lambda tys: same_mesh(*tys) and tys[0]["nvdim"] == tys[1]["nvdim"] and real_(tys[0]) and real_(tys[1]),
             lambda tys, a=None: scalar(tys[0])),
     "matmul": (lambda f, g: f @ g, lambda tys: same_mesh(*tys) and tys[0]["nvdim"] == tys[1]["nvdim"] and real_(tys[0]) and real_(tys[1]),
@@ -803,14 +802,14 @@ SETTER_SPECS = ["none", "true", "false", "int0", "int1", "int2", "neg1", "float0
 
 def cases(rng, tier):
     quick = tier == "quick"
-    yield from sweep_cases(rng, 2 if quick else 12)
-    for _ in range(150 if quick else 2500):
+    yield from sweep_cases(rng, 8 if quick else 60)
+    for _ in range(4000 if quick else 60000):
         mesh = small_mesh(rng)
         leaves = gen_leaves(rng, rng.choice([1, 2, 2, 3]))
         steps = gen_program(rng, mesh, leaves, rng.choice([2, 3, 3, 4, 5]))
         if steps:
             yield dict(kind="prog", mesh=mesh, leaves=leaves, steps=steps, sub=rng.getrandbits(32), why="random")
-    for rep in range(3 if quick else 40):
+    for rep in range(10 if quick else 150):
         for spec in SETTER_SPECS:
             mesh = small_mesh(rng)
             yield dict(kind="setter", mesh=mesh, nvdim=rng.choice([1, 2, 3]), spec=spec, ctor=rng.random() < 0.4,
@@ -822,7 +821,14 @@ def build_leaf(mesh, leaf, rng):
     n = tuple(int(k) for k in mesh.n)
     nv = leaf["nvdim"]
     arr = fieldio.gen_int_array(rng, (*n, nv), -6, 6)
-    arr[arr == 0] = 7.0
+    # some cells hold the zero vector / a tiny vector: operations with a data-dependent branch (division, orientation,
+    # angle, 'norm') must not let the VALUES decide the validity
+    for idx in np.ndindex(*n):
+        u = rng.random()
+        if u < 0.12:
+            arr[idx] = 0.0
+        elif u < 0.18:
+            arr[idx] = 1e-9
     if leaf["cplx"]:
         arr = arr + 1j * fieldio.gen_int_array(rng, (*n, nv), -4, 4)
     mask = fieldio.gen_mask(rng, n, leaf["density"])
@@ -1184,6 +1190,7 @@ def model_tree(case, obs, upto):
     """model program (tree) of step `upto`, model leaves = input fields + results of `free` steps"""
     nl = len(case["leaves"])
     leaves = list(obs["leafmasks"])
+    leafvals = list(range(nl))
     memo = {}
 
     def value(v):
@@ -1197,6 +1204,7 @@ def model_tree(case, obs, upto):
             cls = OPS[st["op"]]
             if cls.kind == "free":
                 leaves.append(dict(shape=so["shape"], data=so["mask"]))
+                leafvals.append(v)
                 r = dict(t="leaf", k=len(leaves) - 1)
             elif cls.kind == "setv":
                 child = value(st["in"][0])
@@ -1207,7 +1215,7 @@ def model_tree(case, obs, upto):
         return r
 
     tree = value(nl + upto)
-    return tree, leaves
+    return tree, leaves, leafvals
 
 
 def model_requests(case, obs):
@@ -1226,8 +1234,8 @@ def model_requests(case, obs):
             break
         if OPS[case["steps"][k]["op"]].kind == "free":
             continue
-        tree, leaves = model_tree(case, obs, k)
-        reqs.append(dict(op="eval", leaves=leaves, prog=tree, _step=k))
+        tree, leaves, leafvals = model_tree(case, obs, k)
+        reqs.append(dict(op="eval", leaves=leaves, prog=tree, _step=(k, leafvals)))
     obs["_req_steps"] = [r.pop("_step") for r in reqs]
     return reqs
 
@@ -1250,8 +1258,7 @@ def compare(case, obs, rs):
             if mj["shape"] != got["mesh"]["n"]:
                 dis.append(f"setter {case['spec']}: model shape {mj['shape']} vs mesh.n {got['mesh']['n']}")
         return dis
-    nl = len(case["leaves"])
-    for k, r in zip(obs.get("_req_steps", []), rs):
+    for (k, leafvals), r in zip(obs.get("_req_steps", []), rs):
         st, so = case["steps"][k], obs["steps"][k]
         what = f"step {k} ({st['op']} {st['args']})"
         if "ok" not in r:
@@ -1267,19 +1274,20 @@ def compare(case, obs, rs):
             dis.append(f"{what}: validity impl vs model differ, first at flat cell {j} (impl {so['mask'][j]})")
         if r["spec"] != m["data"] or r["shapeOf"] != m["shape"]:
             dis.append(f"{what}: model evaluator and index-level reading disagree")
-        # ownership model: result lives in a buffer allocated during evaluation unless the program is an input itself
-        model_alias = r["alias"]
-        impl_alias = [i for i in so["same_obj"] if i < nl]
-        if model_alias is None and (so["same_obj"] or so["shared"]):
-            dis.append(f"{what}: model says own buffer, impl shares with values {so['shared']} / is value {so['same_obj']}")
-        if model_alias is not None:
-            if r["addr"] != model_alias:
-                dis.append(f"{what}: store model address {r['addr']} vs alias {model_alias}")
-            chain = so["same_obj"]
-            if not chain:
-                dis.append(f"{what}: model says the result IS input {model_alias}, impl built a new field")
-        elif r["addr"] is not None and r["addr"] < r["nleaves"]:
-            dis.append(f"{what}: store model returned the address of an input buffer")
+        # store model (code as it stands): the result's buffer is one allocated during the evaluation, unless the
+        # program returns one of its input fields (unary plus).  Inputs of the model program = leafvals.
+        shared_inputs = sorted(i for i in set(so["shared"]) | set(so["same_obj"]) if i in leafvals)
+        if r["alias"] is None:
+            if shared_inputs:
+                dis.append(f"{what}: model says own buffer, impl shares validity memory with input value(s) {shared_inputs}")
+            if r["addr"] is None or r["addr"] < r["nleaves"]:
+                dis.append(f"{what}: store model returned address {r['addr']} (an input buffer) for a non-alias program")
+        else:
+            v = leafvals[r["alias"]]
+            if r["addr"] != r["alias"]:
+                dis.append(f"{what}: store model address {r['addr']} vs alias {r['alias']}")
+            if v not in so["same_obj"]:
+                dis.append(f"{what}: model says the result IS input value {v}, impl returned another object")
     return dis
 
 
